@@ -113,7 +113,7 @@ _mc_re = re.compile(r"(\d+) states generated, (\d+) distinct states found")
 
 def run_mc(module, cfg, workers=NCPU, xmx="8g", timeout=3600, coverage=False):
     """exhaustive toy model checking; returns dict(states, distinct, ok, out)"""
-    md = os.path.join(WORK, "mc_" + hashlib.md5((module + cfg).encode()).hexdigest()[:10])
+    md = os.path.join(WORK, "mc_%s_%d" % (hashlib.md5((module + cfg).encode()).hexdigest()[:10], os.getpid()))
     extra = ["-coverage", "1"] if coverage else None
     t0 = time.time()
     try:
@@ -149,7 +149,7 @@ def write_seeds(n=64, nbytes=48):
     """seeded random byte strings for the plan modules (read there with ndJsonDeserialize)"""
     import random
     r = random.Random(seed())
-    path = os.path.join(WORK, "plan_seeds_%d.ndjson" % seed())
+    path = os.path.join(WORK, "plan_seeds_%d_%d.ndjson" % (seed(), os.getpid()))
     with open(path, "w") as f:
         for _ in range(n):
             f.write(json.dumps({"b": [r.randrange(256) for _ in range(nbytes)]}) + "\n")
@@ -159,13 +159,13 @@ def write_seeds(n=64, nbytes=48):
 def gen_plan(module, cfg, tag, extra_env=None, timeout=1800):
     """run a *Plan.tla module: TLC writes the plan (ndjson) to $PLAN_OUT; returns (path, n_lines)"""
     os.makedirs(WORK, exist_ok=True)
-    outp = os.path.join(WORK, "plan_%s.ndjson" % tag)
+    outp = os.path.join(WORK, "plan_%s_%d.ndjson" % (tag, os.getpid()))
     if os.path.exists(outp):
         os.remove(outp)
     env = dict(os.environ, PLAN_OUT=outp, PLAN_SEEDS=write_seeds())
     if extra_env:
         env.update(extra_env)
-    md = os.path.join(WORK, "pl_" + tag)
+    md = os.path.join(WORK, "pl_%s_%d" % (tag, os.getpid()))
     try:
         r = subprocess.run(tlc_cmd(module, cfg, md, 1, "4g"), cwd=SPEC, capture_output=True, text=True, env=env,
                            timeout=timeout)
@@ -188,7 +188,7 @@ def gen_session_plan(nproc=NCPU, num=40, depth=12):
     parameters) in `nproc` single-worker processes with different seeds; returns (plan_path, n_behaviours)"""
     os.makedirs(WORK, exist_ok=True)
     def one(i):
-        md = os.path.join(WORK, "sp_%d" % i)
+        md = os.path.join(WORK, "sp_%d_%d" % (os.getpid(), i))
         cmd = ["java", "-Xss1g", "-XX:+UseParallelGC", "-Xmx1500m", "-cp", JAR, "tlc2.TLC", "-workers", "1",
                "-simulate", "num=%d" % num, "-depth", str(depth + 1), "-seed", str(seed() * 7919 + i), "-metadir", md,
                "-noGenerateSpecTE", "-config", "cfg/SessionPlan.cfg", "SessionPlan.tla"]
@@ -206,7 +206,7 @@ def gen_session_plan(nproc=NCPU, num=40, depth=12):
         return out
     with ThreadPoolExecutor(nproc) as ex:
         res = list(ex.map(one, range(nproc)))
-    path = os.path.join(WORK, "plan_session.ndjson")
+    path = os.path.join(WORK, "plan_session_%d.ndjson" % os.getpid())
     n = 0
     with open(path, "w") as f:
         for out in res:
@@ -269,8 +269,8 @@ def gen_isqrt_inputs(stride):
     if stride in _isqrt_cache:
         return _isqrt_cache[stride]
     plan, n = gen_plan("SqrtPlan.tla", "cfg/SqrtPlan.cfg", "sqrt_for_isqrt")
-    ell = os.path.join(WORK, "isqrt_ell_%d.ndjson" % stride)
-    dec = os.path.join(WORK, "isqrt_dec_%d.ndjson" % stride)
+    ell = os.path.join(WORK, "isqrt_ell_%d_%d.ndjson" % (stride, os.getpid()))
+    dec = os.path.join(WORK, "isqrt_dec_%d_%d.ndjson" % (stride, os.getpid()))
     r = subprocess.run([sys.executable, os.path.join(VERIF, "tools", "isqrt_inputs.py"), plan, ell, dec, str(stride), str(seed())],
                        capture_output=True, text=True, timeout=3600)
     if r.returncode != 0:
@@ -280,10 +280,32 @@ def gen_isqrt_inputs(stride):
     return _isqrt_cache[stride]
 
 
+def apalache_inductive(module, init, ind_init, ind_inv, safety, timeout=900):
+    """unbounded safety by an inductive invariant, discharged by Apalache: Init => IndInv; IndInv /\\ Next => IndInv';
+    IndInv => Safety.  returns the list of the three commands; raises ToolError on anything but EXITCODE: OK"""
+    cmds = [("--init=%s" % init, "--inv=%s" % ind_inv, "--length=0"),
+            ("--init=%s" % ind_init, "--inv=%s" % ind_inv, "--length=1"),
+            ("--init=%s" % ind_init, "--inv=%s" % safety, "--length=0")]
+    done = []
+    for i, c in enumerate(cmds):
+        od = os.path.join(WORK, "apa_%s_%d" % (module.replace(".tla", ""), i))
+        cmd = ["apalache-mc", "check"] + list(c) + ["--out-dir=" + od, os.path.join(SPEC, module)]
+        try:
+            r = subprocess.run(cmd, cwd=WORK, capture_output=True, text=True, timeout=timeout)
+        except subprocess.TimeoutExpired:
+            raise ToolError("apalache timeout: " + " ".join(cmd))
+        finally:
+            shutil.rmtree(od, ignore_errors=True)
+        if "EXITCODE: OK" not in r.stdout:
+            raise ToolError("apalache did not discharge %s:\n%s" % (" ".join(c), r.stdout[-1500:]))
+        done.append("apalache-mc check " + " ".join(c) + " " + module)
+    return done
+
+
 def gen_lazy_plan(cfg="cfg/LazyPlan.cfg"):
     """all accessor-call sequences of the LazyVar state machine (spec -> implementation): TLC explores
     LazyVar.tla without the VIEW and prints one PLANLINE per behaviour; returns (path, n, states)"""
-    md = os.path.join(WORK, "pl_lazy")
+    md = os.path.join(WORK, "pl_lazy_%d" % os.getpid())
     r = subprocess.run(tlc_cmd("LazyVar.tla", cfg, md, 1, "2g"), cwd=SPEC, capture_output=True, text=True)
     shutil.rmtree(md, ignore_errors=True)
     if "No error has been found" not in r.stdout:
@@ -292,7 +314,7 @@ def gen_lazy_plan(cfg="cfg/LazyPlan.cfg"):
     m = None
     for m in _mc_re.finditer(r.stdout):
         pass
-    path = os.path.join(WORK, "plan_lazy.txt")
+    path = os.path.join(WORK, "plan_lazy_%d.txt" % os.getpid())
     open(path, "w").write("\n".join(seqs) + "\n")
     return path, len(seqs), (int(m.group(2)) if m else 0)
 
@@ -348,8 +370,8 @@ def _validate_chunk(args):
     """validate one chunk file; on rejection mark the event forced and go on.
     returns (n_events, rejections[list of (index, eventdict, prefix_lines)], n_tlc_runs, states)"""
     lines, module, cfg, tag, maxfix = args
-    path = os.path.join(WORK, "chunk_%s.ndjson" % tag)
-    md = os.path.join(WORK, "tr_" + tag)
+    path = os.path.join(WORK, "chunk_%s_%d.ndjson" % (tag, os.getpid()))
+    md = os.path.join(WORK, "tr_%s_%d" % (tag, os.getpid()))
     rej = []
     runs = 0
     states = 0
@@ -615,6 +637,14 @@ class Check:
             cov.update(extra)
         ev = dict(property_id=self.prop, tier=self.tier, seed=seed(), level=level, coverage=cov,
                   assumptions=assumptions or [], wall_s=round(wall, 1), violations=len(self.violations))
+        # scratch files of this process (plans, seeds, generated inputs)
+        suffixes = ("_%d.ndjson" % os.getpid(), "_%d.txt" % os.getpid())
+        for fn in os.listdir(WORK):
+            if fn.endswith(suffixes):
+                try:
+                    os.remove(os.path.join(WORK, fn))
+                except OSError:
+                    pass
         os.makedirs(EVID, exist_ok=True)
         with open(os.path.join(EVID, self.prop + ".json"), "w") as f:
             json.dump(ev, f, indent=1, sort_keys=True)
